@@ -50,6 +50,42 @@ def m_imax(it, st, fr, t, args, ga):
     return I.Num(t_max(a.term, b.term, st.ctx, 'max'), a.ty)
 
 
+def _int_bounds(v):
+    return I.INT_RANGES.get(v.ty, (0, 2 ** 64 - 1))
+
+
+def m_saturating_sub(it, st, fr, t, args, ga):
+    a, b = _num(args[0]), _num(args[1])
+    lo, hi = _int_bounds(a)
+    return I.Num(t_min(t_max(a.term - b.term, Poly.const(lo), st.ctx), Poly.const(hi), st.ctx), a.ty)
+
+
+def m_saturating_add(it, st, fr, t, args, ga):
+    a, b = _num(args[0]), _num(args[1])
+    lo, hi = _int_bounds(a)
+    return I.Num(t_min(t_max(a.term + b.term, Poly.const(lo), st.ctx), Poly.const(hi), st.ctx), a.ty)
+
+
+def _wrapping(op):
+    def m(it, st, fr, t, args, ga):
+        from .terms import t_mod
+        a, b = _num(args[0]), _num(args[1])
+        lo, hi = _int_bounds(a)
+        r = {'add': a.term + b.term, 'sub': a.term - b.term, 'mul': a.term * b.term}[op]
+        rlo, rhi = st.ctx.rng(r)
+        if rlo >= lo and rhi <= hi:
+            return I.Num(r, a.ty)
+        if lo == 0 and rlo >= 0:
+            return I.Num(t_mod(r, Poly.const(hi + 1), st.ctx), a.ty)
+        return I.Num(Poly.atom(('wrap', r, (hi + 1).bit_length() - 1)), a.ty)
+    return m
+
+
+def m_iclamp(it, st, fr, t, args, ga):
+    x, lo, hi = _num(args[0]), _num(args[1]), _num(args[2])
+    return I.Num(t_min(t_max(x.term, lo.term, st.ctx), hi.term, st.ctx), x.ty)
+
+
 def m_identity(it, st, fr, t, args, ga):
     return args[0]
 
@@ -542,7 +578,43 @@ def registry():
         'core::cmp::Ord::min': m_imin,
         'core::cmp::Ord::max': m_imax,
         'core::cmp::min': m_imin,
+        'core::cmp::Ord::clamp': m_iclamp,
         'core::cmp::max': m_imax,
+        'core::num::<impl u8>::saturating_sub': m_saturating_sub,
+        'core::num::<impl u8>::saturating_add': m_saturating_add,
+        'core::num::<impl u8>::wrapping_add': _wrapping('add'),
+        'core::num::<impl u8>::wrapping_sub': _wrapping('sub'),
+        'core::num::<impl u8>::wrapping_mul': _wrapping('mul'),
+        'core::num::<impl u16>::saturating_sub': m_saturating_sub,
+        'core::num::<impl u16>::saturating_add': m_saturating_add,
+        'core::num::<impl u16>::wrapping_add': _wrapping('add'),
+        'core::num::<impl u16>::wrapping_sub': _wrapping('sub'),
+        'core::num::<impl u16>::wrapping_mul': _wrapping('mul'),
+        'core::num::<impl u32>::saturating_sub': m_saturating_sub,
+        'core::num::<impl u32>::saturating_add': m_saturating_add,
+        'core::num::<impl u32>::wrapping_add': _wrapping('add'),
+        'core::num::<impl u32>::wrapping_sub': _wrapping('sub'),
+        'core::num::<impl u32>::wrapping_mul': _wrapping('mul'),
+        'core::num::<impl u64>::saturating_sub': m_saturating_sub,
+        'core::num::<impl u64>::saturating_add': m_saturating_add,
+        'core::num::<impl u64>::wrapping_add': _wrapping('add'),
+        'core::num::<impl u64>::wrapping_sub': _wrapping('sub'),
+        'core::num::<impl u64>::wrapping_mul': _wrapping('mul'),
+        'core::num::<impl usize>::saturating_sub': m_saturating_sub,
+        'core::num::<impl usize>::saturating_add': m_saturating_add,
+        'core::num::<impl usize>::wrapping_add': _wrapping('add'),
+        'core::num::<impl usize>::wrapping_sub': _wrapping('sub'),
+        'core::num::<impl usize>::wrapping_mul': _wrapping('mul'),
+        'core::num::<impl i16>::saturating_sub': m_saturating_sub,
+        'core::num::<impl i16>::saturating_add': m_saturating_add,
+        'core::num::<impl i16>::wrapping_add': _wrapping('add'),
+        'core::num::<impl i16>::wrapping_sub': _wrapping('sub'),
+        'core::num::<impl i16>::wrapping_mul': _wrapping('mul'),
+        'core::num::<impl i32>::saturating_sub': m_saturating_sub,
+        'core::num::<impl i32>::saturating_add': m_saturating_add,
+        'core::num::<impl i32>::wrapping_add': _wrapping('add'),
+        'core::num::<impl i32>::wrapping_sub': _wrapping('sub'),
+        'core::num::<impl i32>::wrapping_mul': _wrapping('mul'),
         'core::convert::Into::into': m_identity,
         '<T as core::convert::Into<U>>::into': m_identity,
         '<T as core::convert::From<T>>::from': m_identity,
